@@ -205,9 +205,14 @@ def c10(a):
     if not a.replay:
         c.add_mc(tlc_mc("MC_Round.tla", "MC_Round.cfg", os.path.join(workdir("C10", False), "mc"), workers=8))
         c.add_mc(tlc_mc("MC_BigInt.tla", "MC_BigInt.cfg", os.path.join(workdir("C10", False), "mc2"), workers=4))
+        # the same statement for EVERY integer and EVERY positive increment, symbolically (Apalache / SMT)
+        from vlib import apalache_check
+        c.add_mc(apalache_check("AP_Round.tla", "Inv", os.path.join(workdir("C10", False), "apalache")))
     drive_and_validate(c, a, binary, "c10", "Trace_Civil.tla")
     zoned_part(c, a, binary, "c10z")
-    c.rule = ("Engine C: MC_Round.tla shows, for all |x| <= 130, increments 1..13 and the 9 modes, that exactly one multiple "
+    c.rule = ("Engine C: AP_Round.tla (Apalache, SMT): for every integer x and every increment >= 1 the transcription of jiff's "
+              "RoundMode::round satisfies the declarative definition and no neighbouring multiple does (MC_Round ties the typed "
+              "copy to Round.tla). MC_Round.tla shows, for all |x| <= 130, increments 1..13 and the 9 modes, that exactly one multiple "
               "satisfies the declarative RoundOk, that the transcription of jiff's RoundMode::round computes it, and that "
               "the BigInt form agrees with the native one. Engine A: round_time / round_dt / round_ts / round_sd / round_off "
               "events over every legal increment of every unit x 9 modes x values at exact multiples, midpoints and +-1ns "
